@@ -330,11 +330,14 @@ class DFTransition:
         self.is_fallthrough = fallthrough
         self.error_handling = error_handling
         self.actions = []
+        # how many of the actions, from the front, stand for statements in front of the one that takes the byte (they were chained in)
+        self.leading_actions = 0
 
     def copy(self):
         my_copy = DFTransition()
         my_copy.on_values = self.on_values.copy()
         my_copy.actions = self.actions.copy()
+        my_copy.leading_actions = self.leading_actions
         my_copy.target = self.target
         my_copy.is_fallthrough = self.is_fallthrough
         my_copy.error_handling = self.error_handling
@@ -350,8 +353,22 @@ class DFTransition:
     def attach(self, *actions, prepend=False):
         if prepend:
             self.actions = list(actions) + self.actions
+            self.leading_actions += len(actions)
         else:
             self.actions.extend(actions)
+        return self
+
+    def attach_for_this_byte(self, *actions):
+        """
+        Attach actions that belong to the byte the transition takes: behind what was chained in from the statements in front of it, and behind
+        its own appends (a byte that does not fit is not taken here, it is handed to the out-of-space handler).
+        """
+
+        position = self.leading_actions
+        for index, action in enumerate(self.actions):
+            if index >= position and isinstance(action, AppendTo):
+                position = index + 1
+        self.actions[position:position] = actions
         return self
     
     def to(self, target):
@@ -371,7 +388,9 @@ class DFTransition:
 
     @classmethod
     def from_key(cls, on_values, inherited):
-        return cls(on_values).to(inherited.target).attach(*inherited.actions).fallthrough(inherited.is_fallthrough).handles_else(inherited.error_handling)
+        result = cls(on_values).to(inherited.target).attach(*inherited.actions).fallthrough(inherited.is_fallthrough).handles_else(inherited.error_handling)
+        result.leading_actions = inherited.leading_actions
+        return result
 
 class DFConditionalTransition(DFTransition):
     def __init__(self, condition: "DFCondition"):
@@ -4365,7 +4384,7 @@ class ForeachNode(ActionSinkNode, ActionSourceNode):
                     continue
                 if set(transition.on_values) == {DFTransition.End}:
                     continue # end-of-input is not a character
-                transition.attach(*self.each_actions, prepend=True)
+                transition.attach_for_this_byte(*self.each_actions)
 
         if self.next is not None:
             sub_dfa.append_after(self.next.convert(current_error_handlers), chain_actions=self.after_actions)
